@@ -21,6 +21,7 @@ import (
 	"github.com/jrivets/log4g"
 	"github.com/logrange/logrange/pkg/lql"
 	"github.com/logrange/logrange/pkg/model/tag"
+	"github.com/logrange/logrange/pkg/utils/verifhook"
 	"github.com/logrange/range/pkg/records/journal"
 	"github.com/logrange/range/pkg/utils/bytes"
 	errors2 "github.com/logrange/range/pkg/utils/errors"
@@ -135,6 +136,7 @@ func (ims *inmemService) GetJournalTags(src string, lock bool) (ts tag.Set, err 
 		}
 
 		ims.logger.Debug("GetJournalTags(): Oops, raise with an exclusive lock")
+		verifhook.At("tindex.getJournalTags.wait")
 		time.Sleep(time.Millisecond)
 	}
 	return ts, err
@@ -210,6 +212,7 @@ func (ims *inmemService) getOrCreateJournal(tags string, create bool) (res strin
 			break
 		}
 		ims.logger.Debug("getOrCreateJournal(): Oops, raise with an exclusive lock")
+		verifhook.At("tindex.getOrCreateJournal.wait")
 		time.Sleep(time.Millisecond)
 	}
 	return res, ts, err
@@ -298,6 +301,7 @@ L1:
 			if skip {
 				// Crap. We do this stupid thing here, just because it has to happen extremely rear,
 				// but should be considered to do something else then
+				verifhook.At("tindex.visitWaiting.wait")
 				time.Sleep(time.Millisecond)
 			}
 		}
